@@ -2,7 +2,7 @@
    receive buffer, leases) preserved by EVERY operation of Model/LinkedBuffer.step, from which the
    full refinement to the byte queue (C06) and the lease safety (C08) follow. *)
 From Coq Require Import List ZArith Lia Bool Arith.
-From Shm Require Import Gen.Consts Model.LinkedBuffer Proofs.LinkedBufferProofs Proofs.LinkedBufferStore
+From Shm Require Import Gen.Consts Gen.SwitchC07 Gen.SwitchC08 Model.LinkedBuffer Proofs.LinkedBufferProofs Proofs.LinkedBufferStore
   Proofs.LinkedBufferWriter Proofs.LinkedBufferXfer.
 Import ListNotations.
 Close Scope Z_scope.
@@ -611,9 +611,10 @@ Proof.
     destruct (fromshm (snd s)) eqn:Ef.
     + destruct (done_chain (mem s) (snd s) (wpre_of_Inv _ _ _ I) Ef Hlen) as [m1 [Hd [[D1 D2 D3 D4 D5 D6 D7] Hne]]].
       rewrite Hd. cbn [bind]. rewrite Ef. cbn [negb]. rewrite orb_false_r.
+      change sw_fallback_sticky with true. cbn [andb].     (* the proof is about the sticky flag of the source *)
       destruct (infb s) eqn:Eb.
       * (* the stream is already in fallback state *)
-        unfold lb_recycle. eexists. exists idss. split; [reflexivity|].
+        unfold lb_recycle, clean_pinned. rewrite (proj1 I17). eexists. exists idss. split; [reflexivity|].
         apply (Inv_flush_fallback s sp idss m1 I Hlen D2 D3 D4 D5 D6 D7).
       * (* through shared memory *)
         destruct (slices (snd s)) as [|f r] eqn:Esl; [congruence|]. rewrite <- Esl in *.
@@ -647,7 +648,7 @@ Proof.
         -- destruct I17 as [A1 [A2 A3]]. cbn [clean pinned recycled leases]. repeat split; auto.
     + (* the buffer left shared memory: fallback *)
       unfold lb_done. rewrite Ef. cbn [bind]. rewrite Ef. cbn [negb]. rewrite orb_true_r.
-      unfold lb_recycle. eexists. exists idss. split; [reflexivity|].
+      unfold lb_recycle, clean_pinned. rewrite (proj1 I17). eexists. exists idss. split; [reflexivity|].
       apply (Inv_flush_fallback s sp idss (mem s) I Hlen); auto.
       * apply same_data_refl.
       * apply cap_stable_refl.
@@ -941,10 +942,10 @@ Proof.
     + left. reflexivity.
 Qed.
 
-Lemma Inv_close s sp idss : Inv s sp idss ->
-  let '(m1, l1) := lb_recycle (mem s) (rcv s) in Inv (with_mem_rcv s m1 l1) (with_av sp []) idss.
+Lemma Inv_close0 s sp idss : Inv s sp idss ->
+  Inv (with_mem_rcv s (recycle_all (mem s) (slices (rcv s))) (set_leases (clean (rcv s)) [])) (with_av sp []) idss.
 Proof.
-  intros I. pose proof I as [I1 I2 I3 I4 I5 I6 I7 I8 I9 [I10a I10b] I11 I12 I13 I14 I15 I16 I17]. unfold lb_recycle.
+  intros I. pose proof I as [I1 I2 I3 I4 I5 I6 I7 I8 I9 [I10a I10b] I11 I12 I13 I14 I15 I16 I17].
   apply Forall_app in I9. destruct I9 as [I9a I9b].
   assert (Hnd : NoDup (offs (slices (rcv s)))) by (apply NoDup_cnt; intros x; specialize (I8 x); lia).
   assert (Hdis : forall x, In x (offs (slices (rcv s))) -> ~ In x (frees (mem s))).
@@ -971,6 +972,15 @@ Proof.
   - constructor.
   - left. reflexivity.
   - exact I17.
+Qed.
+
+(* recycle(): the parked slices first (cleanPinnedList), then the list *)
+Lemma Inv_close s sp idss : Inv s sp idss ->
+  let '(m1, l1) := lb_recycle (mem s) (rcv s) in Inv (with_mem_rcv s m1 l1) (with_av sp []) idss.
+Proof.
+  intros I. pose proof (Inv_clean_pinned s sp idss I) as H. unfold lb_recycle.
+  destruct (clean_pinned (mem s) (rcv s)) as [m1 l1]. destruct H as [I' _].
+  exact (Inv_close0 _ _ _ I').
 Qed.
 
 (* ---------------------------------------------------------------------------------------- *)
@@ -1148,6 +1158,9 @@ Proof.
   - (* RClose *)
     pose proof (Inv_close s sp idss I) as H. destruct (lb_recycle (mem s) (rcv s)) as [m1 l1].
     eexists. eexists. exists idss. split; [reflexivity|]. split; [reflexivity|exact H].
+  - (* RPeerClose: the sweep of the callback goroutine does not run for a half-closed stream *)
+    change sw_sweep_needs_closed with true. cbv iota.
+    eexists. eexists. exists idss. split; [reflexivity|]. split; [reflexivity|exact I].
   - (* OAlloc *)
     destruct (allocShmBuffer (mem s) n) as [[b m1]|] eqn:Eal.
     + eexists. eexists. exists idss. split; [reflexivity|]. split; [exact Logic.I|]. exact (Inv_oalloc s sp idss n b m1 I Eal).
